@@ -515,4 +515,47 @@ def rule_j(ctx: Ctx) -> None:
     ctx.explain('C17.j: for every subclass of XMLSchemaConverter the methods element_decode and element_encode found through the MRO both carry @stackable or neither does.')
 
 
-RULES = [rule_a, rule_b, rule_c, rule_d, rule_e, rule_f, rule_g, rule_h, rule_i, rule_j]
+def rule_k(ctx: Ctx) -> None:
+    """An encoder resolves the names of an object in the namespace context of that object: `set_xmlns_context(obj, level)` first drops the contexts the previous
+    sibling's subtree left on the stack and then pushes the object's own declarations.  A name resolved *before* that call sees the sibling's rebindings; the wrapper
+    encoders (BadgerFish, GData) do so only to probe whether the single key is the element's own tag and fall back to the declared name - a refusal ("Unmatched
+    tag") must not hang on such a name."""
+    rule = 'C17.k'
+    base = ctx.idx.cls('xmlschema.converters.base.XMLSchemaConverter')
+    n = 0
+    for c in ctx.idx.classes.values():
+        if c.module.name.startswith(('xmlschema.testing', 'xmlschema.extras')) or base not in c.mro():
+            continue
+        f = c.methods.get('element_encode')
+        if f is None or isinstance(f.node, ast.Lambda):
+            continue
+        g = cfg_of(ctx, f)
+        sets = [x for x, cl in call_nodes(g, lambda cl: isinstance(cl.func, ast.Attribute) and cl.func.attr == 'set_xmlns_context')]
+        if not sets:
+            continue
+        n += 1
+        ctx.analysed(f.qualname)
+        dom = g.dominators(kinds='nTF')
+        early = {}
+        for x, cl in call_nodes(g, lambda cl: isinstance(cl.func, ast.Attribute) and cl.func.attr == 'unmap_qname'):
+            if not any(s_ in dom.get(x, set()) for s_ in sets) and x.kind == 'stmt' and isinstance(x.ast, ast.Assign) and isinstance(x.ast.targets[0], ast.Name):
+                early[x.ast.targets[0].id] = x
+        bad = None
+        for r in g.nodes:
+            if r.kind != 'raise':
+                continue
+            for t, lab in guards(ctx, f, r):
+                for v in early:
+                    if f'is_matching({v})' in t:
+                        bad = (r, v, t)
+        ok = bad is None
+        ctx.ob(rule, f'{c.name}.element_encode: no refusal depends on a name resolved before the namespace context of the object is set', f.loc(bad[0].ast) if bad else f.loc(), ok,
+               '' if ok else f'`{bad[1]}` is resolved at line {early[bad[1]].lineno}, before set_xmlns_context(obj, level) has dropped the contexts of the previous sibling, and the raise '
+               f'under `{bad[2][:50]}` hangs on it: after <p:a xmlns:p="urn:u2">…</p:a> the sibling <p:b> (p bound to urn:u1 by the root) resolves to {{urn:u2}}b - refused in strict mode, '
+               'dropped in lax mode', key=f'{c.qualname}|early-name-refusal')
+    ctx.floor(rule, 'encoders that set the namespace context of the object', n, 4)
+    ctx.explain('C17.k: in each element_encode that calls set_xmlns_context, a local assigned from an unmap_qname call that the context call does not dominate never occurs in the '
+                'is_matching(…) test guarding a raise (dominators + control dependence).')
+
+
+RULES = [rule_a, rule_b, rule_c, rule_d, rule_e, rule_f, rule_g, rule_h, rule_i, rule_j, rule_k]
